@@ -120,7 +120,18 @@ StoreReg(a, ty, v) ==      \* [ok, fi, v (new value of the variable), why]
 (* [k |-> "reg", r] | [k |-> "imm", w] | [k |-> "fimm", x] | [k |-> "mem", ty, disp, base, idx, scale] | [k |-> "lab", l] *)
 RegVal(regs, r) == IF regs[r].t = "u" THEN Bad("read of an unset register")
                    ELSE IF regs[r].t = "nv" THEN Bad("undefined bytes of a narrow variable read") ELSE regs[r]
+(* Memory block 1 (the buffer the program is called on) has a known address: operands without a base register address it *)
+(* with numbers, disp + index * scale.  No other pointer is a number.                                                    *)
+AbsBaseNat == 268435456        \* 0x10000000
+AbsAddr(regs, op) ==
+  LET iv == IF op.idx = 0 THEN IntV(Zero64) ELSE RegVal(regs, op.idx) IN
+  IF IsBad(iv) THEN iv
+  ELSE IF iv.t # "i" \/ iv.h THEN Bad("memory index is not a fully defined integer")
+  ELSE IF ~(FitsNat(iv.w) /\ ToNat(iv.w) <= (1073741823 \div op.scale) /\ op.disp <= 1073741823) THEN Bad("absolute address out of modelled range")
+  ELSE LET n == op.disp + (ToNat(iv.w) * op.scale) IN
+       IF n >= AbsBaseNat /\ n < AbsBaseNat + 4096 THEN PtrV(1, n - AbsBaseNat) ELSE Bad("absolute address outside the known block")
 Addr(regs, op) ==      \* pointer value of a memory operand or Bad
+  IF op.base = 0 THEN AbsAddr(regs, op) ELSE
   LET bv == RegVal(regs, op.base) IN
   IF IsBad(bv) THEN bv
   ELSE IF bv.t = "ra" THEN (IF op.idx = 0 /\ op.disp = 0 THEN bv ELSE Bad("arithmetic on the address of a variable"))
